@@ -28,7 +28,7 @@ from types import TracebackType
 from typing import Awaitable, Dict, List, Optional, Set, Tuple, Type, Union
 
 from ._cache import DNSCache
-from ._dns import DNSQuestion, DNSQuestionType, DNSRecord
+from ._dns import DNSPointer, DNSQuestion, DNSQuestionType, DNSRecord
 from ._engine import AsyncEngine
 from ._exceptions import NonUniqueNameException, NotRunningException
 from ._handlers.multicast_outgoing_queue import MulticastOutgoingQueue
@@ -374,12 +374,26 @@ class Zeroconf(QuietLogger):
         service."""
         replaced = self.registry.async_get_info_name(info.key)
         self.registry.async_update(info)
-        if replaced is not None and replaced is not info:
+        if replaced is not None:
             # Answers queued for earlier queries must not bring back the
             # records this update replaces once the new ones are announced
             assert replaced.server_key is not None
-            stale: Set[DNSRecord] = {replaced.dns_pointer(), replaced.dns_service(), replaced.dns_text()}
-            stale.update(replaced.get_address_and_nsec_records())
+            stale: Set[DNSRecord] = set()
+            if replaced is not info:
+                stale.update((replaced.dns_pointer(), replaced.dns_service(), replaced.dns_text()))
+                stale.update(replaced.get_address_and_nsec_records())
+            else:
+                # The registered object was changed in place: what it used to
+                # offer is not known any more, so take what the queues hold
+                # under its names
+                for queue in (self.out_queue, self.out_delay_queue):
+                    for group in queue.queue:
+                        for answer, additionals in group.answers.items():
+                            for record in (answer, *additionals):
+                                if record.key in (info.key, info.server_key) or (
+                                    isinstance(record, DNSPointer) and record.alias_key == info.key
+                                ):
+                                    stale.add(record)
             stale.difference_update((info.dns_pointer(), info.dns_service(), info.dns_text()))
             stale.difference_update(info.get_address_and_nsec_records())
             for other in self.registry.async_get_infos_server(replaced.server_key):
